@@ -285,7 +285,10 @@ class C06Normalize(Harness):
             for axis in (0, 1):
                 for inplace in (False, True):
                     yield f"partial-S{'x'.join(map(str, shape))}-ax{axis}-i{int(inplace)}", dict(mode="partial", shape=list(shape), axis=axis, inplace=inplace)
+                # real (weighted / already scaled) contents: line totals may lie anywhere, e.g. strictly between 0 and 1
+                yield f"partial-S{'x'.join(map(str, shape))}-ax{axis}-hreal", dict(mode="partial", shape=list(shape), axis=axis, inplace=False, kind="real")
             yield f"norm2d-S{'x'.join(map(str, shape))}", dict(mode="norm2d", shape=list(shape))
+            yield f"norm2d-S{'x'.join(map(str, shape))}-hreal", dict(mode="norm2d", shape=list(shape), kind="real")
         for M in ((2,) if tier == "quick" else (2, 3)):
             for inplace in (False, True):
                 yield f"colbins-M{M}-i{int(inplace)}", dict(mode="colbins", M=M, inplace=inplace)
@@ -300,7 +303,7 @@ class C06Normalize(Harness):
             return x
         if m in ("partial", "norm2d"):
             shape = p["shape"]
-            x = {"f": declare_cells(cx, "f", shape, "int"), "q": declare_cells(cx, "q", shape, "int"),
+            x = {"f": declare_cells(cx, "f", shape, p.get("kind", "int")), "q": declare_cells(cx, "q", shape, p.get("kind", "int")),
                  "e": [declare_edges(cx, f"e{k}_", shape[k]) for k in range(2)]}
             if cx.sym and m == "norm2d":
                 cx.assume(zsum(cx.t(i) for i in x["f"]) > 0)
@@ -330,7 +333,8 @@ class C06Normalize(Harness):
         if m in ("partial", "norm2d"):
             H2 = E.mod("physt.histogram_nd").Histogram2D
             shape = p["shape"]
-            h = H2([np.asarray(x["e"][k]) for k in range(2)], np.asarray(nested(x["f"], shape), dtype=int), errors2=np.asarray(nested(x["q"], shape), dtype=int))
+            dt = float if p.get("kind") == "real" else int
+            h = H2([np.asarray(x["e"][k]) for k in range(2)], np.asarray(nested(x["f"], shape), dtype=dt), errors2=np.asarray(nested(x["q"], shape), dtype=dt))
             r = E.attempt(h.partial_normalize, p["axis"], inplace=p["inplace"]) if m == "partial" else E.attempt(h.normalize)
             obs = {"after": snapnd(E, h)}
             if isinstance(r, Raised):
@@ -387,8 +391,9 @@ class C06Normalize(Harness):
         if m in ("partial", "norm2d"):
             shape = p["shape"]
             idxs = product_indices(shape)
-            f = {idx: z3.ToReal(cx.t(v)) for idx, v in zip(idxs, x["f"])}
-            q = {idx: z3.ToReal(cx.t(v)) for idx, v in zip(idxs, x["q"])}
+            toreal = (lambda t: t) if p.get("kind") == "real" else z3.ToReal
+            f = {idx: toreal(cx.t(v)) for idx, v in zip(idxs, x["f"])}
+            q = {idx: toreal(cx.t(v)) for idx, v in zip(idxs, x["q"])}
             if m == "norm2d":
                 T = zsum(f.values())
                 yield "total", cx.eq(res["total"], z3.RealVal(1))
@@ -408,7 +413,7 @@ class C06Normalize(Harness):
             if p["inplace"]:
                 yield "inplace_returns_self", obs["same"] is True
             else:
-                yield "operand_unchanged", z3.And([cx.eq(getcell(obs["after"]["freq"], i), f[i]) for i in idxs] + [z3.BoolVal(obs["same"] is False and obs["after"]["dtype"] == "int64")])
+                yield "operand_unchanged", z3.And([cx.eq(getcell(obs["after"]["freq"], i), f[i]) for i in idxs] + [z3.BoolVal(obs["same"] is False and obs["after"]["dtype"] == ("float64" if p.get("kind") == "real" else "int64"))])
             return
         M = p["M"]
         f1, f2 = [z3.ToReal(cx.t(i)) for i in x["f1"]], [z3.ToReal(cx.t(i)) for i in x["f2"]]
